@@ -218,7 +218,10 @@ class Run:
     FOREIGN = [("null", None), ("bool", True), ("int", 7), ("int0", 0), ("float", 3.7), ("float-integral", 3.0),
                ("str", "x y"), ("str-int", "12"), ("str-int-padded", " 1_2 "), ("str-json", '{"a": 1}'),
                ("list-str", ["a", "b c"]), ("list-int", [1, 2]), ("list-dict", [{"a": 1}]), ("dict", {"a": "b"}),
-               ("list-empty", []), ("dict-empty", {}), ("list-none", [None]), ("list-one", ["solo"])]
+               ("list-empty", []), ("dict-empty", {}), ("list-none", [None]), ("list-one", ["solo"]),
+               # lists whose elements are of different types: one element of the declared type does not vouch for the rest
+               ("list-mixed-str-int", ["a", 7]), ("list-mixed-int-str", [1, "b"]), ("list-mixed-str-null", ["a", None]),
+               ("list-mixed-dict-str", [{"a": 1}, "s"]), ("list-mixed-str-dict-bool", ["pwd", {"otp": True}, False])]
 
     def slot_oracle(self, name, cls, k, ent, given, stored, rec, path):
         """stored has the declared type and is `given` or a lossless coercion of it"""
@@ -391,7 +394,7 @@ class Run:
         for name, cls in self.classes:
             params = [(k, e) for k, e in cls.c_param.items() if k != "*"]
             for k, ent in params:
-                foreign = self.FOREIGN if not ctx.quick else rng.sample(self.FOREIGN, 7)
+                foreign = self.FOREIGN if not ctx.quick else rng.sample(self.FOREIGN, 9)
                 for tag, v in foreign:
                     self.slot_cell(name, cls, k, ent, tag, v)
                 if ent[0] in (int, bool):
